@@ -87,6 +87,7 @@ def ck_radix64(r, o):
                  input=short(data))
         return
     problems, info = R.radix64_judge(t, data)
+    problems = list({cls: (cls, detail) for cls, detail in reversed(problems)}.values())      # first instance per class
     for cls, detail in problems:
         o.v("ref/radix64-" + cls, "line-wrapped radix-64 output violates RFC 4880 6.3: %s %s" % (cls, detail), r,
             input_len=len(data), input=short(data), output=t[:400])
@@ -133,6 +134,7 @@ def ck_armor(r, o):
     if a["crc_ok"] is not True:
         o.v("ref/armor-crc", "armor checksum is not the CRC-24 of the data", r, input=short(data), armor=t[-200:])
     problems, info = R.radix64_judge(a["body_text"], data)
+    problems = list({cls: (cls, detail) for cls, detail in reversed(problems)}.values())
     for cls, detail in problems:
         o.v("ref/radix64-" + cls, "armor body violates RFC 4880 6.3: %s %s" % (cls, detail), r, input_len=len(data))
     if info["width"] is not None:
